@@ -4,16 +4,18 @@ from __future__ import annotations
 import copy
 import hashlib
 import os
+import shutil
 
 from hypothesis import strategies as st
 
+from vf import cli
 from vf.core import HarnessError, HypPart, Oracle, VERIF_DIR
 from vf.gen import keys as K
 from vf.ref import sb2_rom
 
 ID = "C04"
 LEVEL = "exploration"
-TECHNIQUE = "Hypothesis-generated section/command lists, keys and header parameters; differential against an independent SB2.0/2.1 ROM loader model (calibrated on legacy elftosb files) and against SPSDK's own parser; wrong-KEK and corruption injection"
+TECHNIQUE = "Hypothesis-generated section/command lists, keys and header parameters; differential against an independent SB2.0/2.1 ROM loader model (calibrated on legacy elftosb files) and against SPSDK's own parser; wrong-KEK and corruption injection; a share of the cases also through the real `nxpimage sb21 export` (YAML configuration + -k/-s/-S/-R/-h/-o options) and `nxpimage sb21 parse` commands with the same model on the files they write"
 LEVEL_TEXT = (
     "exploration: every generated SB2.0 (signed/unsigned) and SB2.1 file is processed by a loader model that shares no code with spsdk "
     "(RFC 3394 unwrap, HMACs, RSA signature and certificate chain, AES-CTR with the nonce-derived block counter, command checksums, LOAD CRC) "
@@ -32,7 +34,7 @@ ASSUMPTIONS = [
     "cert block image_length: elftosb counts the optional SHA-256, SPSDK does not; both accepted",
     "certificate chains use one RSA size per chain (mixed sizes are exercised by C02)",
 ]
-FLOORS = {"fmt:2.1": 0.12, "fmt:2.0s": 0.04, "load_unaligned": 0.1, "multi_section": 0.1, "cfg": 0.05, "certs_as:config": 0.02}
+FLOORS = {"cli": 0.018, "cli:sb21_export": 0.0025, "fmt:2.1": 0.12, "fmt:2.0s": 0.04, "load_unaligned": 0.1, "multi_section": 0.1, "cfg": 0.05, "certs_as:config": 0.02}
 
 GOLD = os.path.join(VERIF_DIR, "fixtures", "golden", "sb2")
 EXT_MEM_TAGS = [1, 8, 9, 10, 11, 16]  # ExtMemId tags <= 0xFF (the key-store commands accept only those)
@@ -422,6 +424,20 @@ def run_case(case, o: Oracle) -> None:
             [p2.header.product_version.nums[i] for i in range(3)] == [int("%d" % n, 16) for n in product]
         if not same:
             o.fail("negative", "different_content:%s" % kind, "corruption %r at %d returned other content instead of an error" % (kind, pos))
+    # ---------------- (f) `nxpimage sb21 parse` on the file (the command reads SB2.1 only)
+    if fmt == "2.1" and parsed is not None and cli.selected(case, CLI_PARSE_ONE_IN):
+        wd = os.path.join(_WORK.get("dir") or ".", "c04cli-%d" % os.getpid())
+        shutil.rmtree(wd, ignore_errors=True)
+        os.makedirs(wd, exist_ok=True)
+        try:
+            with open(os.path.join(wd, "image.sb2"), "wb") as f:
+                f.write(data)
+            with open(os.path.join(wd, "kek.txt"), "w") as f:
+                f.write(kek.hex())
+            ders = [c.der for c in model["cert_block"].certs] if model is not None else None
+            _cli_sb21_parse(o, wd, os.path.join(wd, "image.sb2"), os.path.join(wd, "kek.txt"), [s["commands"] for s in case["sections"]], ders)
+        finally:
+            shutil.rmtree(wd, ignore_errors=True)
     _second_export(case, o, img, sections, exp_sections, kek, padding, fmt)
 
 
@@ -734,33 +750,10 @@ def _run_cfg(case, o: Oracle, wd: str, BootImageV21) -> None:
             return
         exports.append((img, data))
     for rnd, (img, data) in enumerate(exports):
-        try:
-            model = sb2_rom.load(data, kek)
-        except sb2_rom.Reject as exc:
-            o.fail("rom_accepts", "config_reject", "build %d: %s" % (rnd, exc))
-            continue
-        h = model["header"]
-        want_flags = 0x8008 if case["flags"] is None else int(str(case["flags"]), 0)
-        o.eq("config_header", "flags", h["flags"], want_flags)
-        o.eq("config_header", "product_version", h["product_version"], [int("%d" % n, 16) for n in (case["product"] or [1, 0, 0])])
-        o.eq("config_header", "component_version", h["component_version"], [int("%d" % n, 16) for n in (case["component"] or [1, 0, 0])])
-        want_build = case["build"] if case["build"] is not None else 1
-        if case["certs_as"] == "arguments" or case["build"] is not None:
-            o.eq("config_header", "build_number", h["build_number"], want_build)
-        if case["timestamp"] is not None:
-            o.eq("config_header", "timestamp", h["timestamp"], (case["timestamp"] - 946684800) * 1000000)
-        for k_ in ("dek", "mac"):
-            if case[k_] is not None:
-                o.eq("config_keys", k_, model[k_], bytes(case[k_]))
-        if case["nonce"] is not None:
-            o.eq("config_keys", "nonce", h["nonce"], bytes(case["nonce"]))
-        cbm = model["cert_block"]
-        o.eq("config_cert_block", "rkh_table", {i: r for i, r in enumerate(cbm.rkh) if any(r)}, root_hashes)
-        o.eq("config_cert_block", "used_root", cbm.used_root_index, slot)
-        with o.spsdk("config_cert_block", "rkth_file"):
-            o.eq("config_cert_block", "rkth_file", open(kwargs["rkth_out_path"], "rb").read(), cbm.rkth)
-        fake = {"sections": [{"commands": [dict(c, zero=case["zero_padding"]) if c["c"] == "load" else c for c in s_["commands"]]} for s_ in case["sections"]]}
-        _compare_sections("config_content", model["sections"], exp_round[rnd], fake, o)
+        _judge_cfg(o, case, data, kek, exp_round[rnd], root_hashes, slot, kwargs["rkth_out_path"], "build %d" % rnd)
+    if cli.selected(case, CLI_CFG_ONE_IN):
+        rewritten = bool(case["twice"] and case.get("rewrite"))
+        _cli_cfg(case, o, wd, kek, kek_path, key_path, chain_paths, root_paths, chain_keys, root_hashes, slot, options, rewritten)
     if len(exports) == 2:
         (i1, d1), (i2, d2) = exports
         try:
@@ -774,9 +767,210 @@ def _run_cfg(case, o: Oracle, wd: str, BootImageV21) -> None:
             o.check("config_keys", m1["header"]["nonce"] != m2["header"]["nonce"], "reused_nonce", "two builds share the self-chosen nonce")
 
 
+# ------------------------------------------------------------------ the real commands (`nxpimage sb21 export` / `nxpimage sb21 parse`)
+# share of the sb21_config cases that are also built by `nxpimage sb21 export` (and parsed by `sb21 parse`); a command build costs
+# as much as ten average cases of this check (it loads the RSA private key from its PEM file, up to 0.3 s for 4096 bits)
+CLI_CFG_ONE_IN = 10
+CLI_PARSE_ONE_IN = 6  # share of the SB2.1 cases of part sb2 whose file also goes through `nxpimage sb21 parse`
+YAML_COMMANDS = ("load", "jump", "erase", "vercheck")  # the YAML form of the configuration has no call / reset statement
+
+
+def _cli_sb21_parse(o: Oracle, wd: str, path: str, kek_path: str, sections: list, cert_ders) -> None:
+    """`nxpimage sb21 parse -b <file> -k <kek file> -o <dir>`: succeeds, dumps the certificates of the block and, per LOAD
+    command, a data file that starts with the given data (the command states that padding may follow)."""
+    out = os.path.join(wd, "parsed")
+    res = cli.run(o, "sb21_parse", ["sb21", "parse", "-b", path, "-k", kek_path, "-o", out], cwd=os.path.join(wd, "cwd"))
+    if res is None:
+        return
+    co = cli.Scoped(o, "sb21_parse")
+    co.check("command", "Success." in res.output, "no_success_message", res.describe())
+    info = cli.read(o, "sb21_parse", os.path.join(out, "parsed_info.txt"))
+    if info is not None:
+        co.check("files", len(info) > 0, "parsed_info_empty", "parsed_info.txt is empty")
+    want_files = {"parsed_info.txt"}
+    for si, cmds in enumerate(sections):
+        for ci, c in enumerate(cmds):
+            if c["c"] != "load":
+                continue
+            name = "section_%d_load_command_%d_data.bin" % (si, ci)
+            want_files.add(name)
+            got = cli.read(o, "sb21_parse", os.path.join(out, name))
+            if got is None:
+                continue
+            want = bytes(c["data"])
+            n = len(want)
+            co.check("load_data", got[:n] == want, "content", "%s: does not start with the %d given bytes" % (name, n))
+            co.check("load_data", len(got) in (n, (n + 15) // 16 * 16), "length", "%s: %d bytes for %d given" % (name, len(got), n))
+            if c.get("zero"):
+                co.check("load_data", not any(got[n:]), "zero_padding", "%s: zero filling requested, padding %s" % (name, got[n:].hex()))
+    if cert_ders is not None:
+        for i, der in enumerate(cert_ders):
+            name = "certificate_%d_der.cer" % i
+            want_files.add(name)
+            got = cli.read(o, "sb21_parse", os.path.join(out, name))
+            if got is not None:
+                co.check("certificates", got == der, "content", "%s is not certificate %d of the block" % (name, i))
+    extra = sorted(set(os.listdir(out)) - want_files) if os.path.isdir(out) else []
+    co.check("files", not [x for x in extra if x.startswith(("section_", "certificate_"))], "unexpected_dump", "files nobody asked for: %r" % extra[:6])
+
+
+def _cli_cfg(case, o: Oracle, wd: str, kek: bytes, kek_path: str, key_path: str, chain_paths: list, root_paths: list, chain_keys: list,
+             root_hashes: dict, slot: int, options: dict, rewritten: bool) -> None:
+    """The configuration as a YAML file in the documented form, built by the real `nxpimage sb21 export`, judged by the same
+    loader model; then `nxpimage sb21 parse` on what it wrote.
+
+    * the YAML form knows no call / reset statements (BD files only): they are left out of this build, sections left empty too;
+    * `flags`, `certBlock`, a signing key and `containerKeyBlobEncryptionKey` are required by the published schema;
+    * certs_as == "arguments": certificates and key come by -S / -R / -s (the options' help: "certificate files for signing",
+      "private key ... used for signing"); the configuration names another complete, valid key set that must not be used;
+    * kek_as == "both": the key file of -k is in force, the configuration names another key; "file": the configuration names
+      the key file; "config": the configuration holds the hex string."""
+    import yaml
+
+    bits = case["rsa_bits"]
+    ysec, fsections, exp = [], [], []
+    for si, sec in enumerate(case["sections"]):
+        cmds, kept = [], []
+        for ci, c in enumerate(sec["commands"]):
+            k_ = c["c"]
+            if k_ not in YAML_COMMANDS:
+                continue
+            if k_ == "load":
+                data = bytes(c["data"])
+                if rewritten:
+                    data = bytes(x ^ 0x5A for x in data)  # what the second library build left in the file
+                c = dict(c, data=data, zero=case["zero_padding"])
+                cmds.append({"load": {"address": c["address"], "file": "load_%d_%d.bin" % (si, ci)}})
+            elif k_ == "jump":
+                d = {"address": c["address"], "argument": c["argument"]}
+                if c["spreg"] is not None:
+                    d["spreg"] = c["spreg"]
+                cmds.append({"jump": d})
+            elif k_ == "erase":
+                cmds.append({"erase": {"address": c["address"], "length": c["length"], "flags": c["flags"]}})
+            else:
+                cmds.append({"version_check": {"ver_type": c["type"], "fw_version": c["version"]}})
+            kept.append(c)
+        if cmds:
+            ysec.append({"section_id": sec["uid"], "commands": cmds})
+            fsections.append({"uid": sec["uid"], "commands": kept})
+            exp.append({"uid": sec["uid"], "hmac_count": 1, "commands": [expected(c) for c in kept]})
+    if not ysec:
+        o.label("cli:not_expressible_in_yaml")
+        return
+    fcase = dict(case, sections=fsections)
+    yopts = dict(options)
+    yopts.setdefault("flags", 0x8008)  # required in the YAML form; the value the builder takes when a BD file has none
+    out_name = "out_cli.sb2"
+    ycfg: dict = {"family": "lpc55s69", "containerOutputFile": out_name, "options": yopts, "sections": ysec}
+    args = ["sb21", "export"]
+    # ---- key encryption key
+    if case["kek_as"] == "config":
+        ycfg["containerKeyBlobEncryptionKey"] = kek.hex()
+    elif case["kek_as"] == "file":
+        ycfg["containerKeyBlobEncryptionKey"] = os.path.basename(kek_path)
+    else:
+        ycfg["containerKeyBlobEncryptionKey"] = (bytes([kek[0] ^ 0xFF]) + kek[1:]).hex()
+        args += ["-k", kek_path]
+    # ---- certificates and signing key
+    cb: dict = {"mainRootCertId": slot}
+    for s_, pth in enumerate(root_paths):
+        cb["rootCertificate%dFile" % s_] = os.path.basename(pth)
+    for i, pth in enumerate(chain_paths[1:]):
+        cb["chainCertificate%dFile%d" % (slot, i)] = os.path.basename(pth)
+    if case["build"] is not None:
+        cb["imageBuildNumber"] = case["build"]
+    # the signing key as a key file or as a file signature provider (the schema's alias "mainRootCertPrivateKeyFile" is not read
+    # by BootImageV21.load_from_config: an observation, see notes/cli-a-report.md, kept out of the generated domain)
+    as_provider = case["key_name"] != "sign"
+    key_name = "signProvider" if as_provider else "signPrivateKey"
+    if case["certs_as"] == "arguments":
+        alt = K.rsa_key(2048 if bits != 2048 else 3072, slot)  # another size: certainly none of the keys of the case
+        with open(os.path.join(wd, "alt_root.der"), "wb") as f:
+            f.write(K.cert_der(K.make_cert(alt, alt, subject_cn="alt-root", ca=False)))
+        with open(os.path.join(wd, "alt_key.pem"), "wb") as f:
+            f.write(K.private_pem(alt))
+        with open(os.path.join(wd, "cert_block_alt.yaml"), "w") as f:
+            yaml.safe_dump({"mainRootCertId": 0, "rootCertificate0File": "alt_root.der", "imageBuildNumber": 0}, f)
+        ycfg["certBlock"] = "cert_block_alt.yaml"
+        ycfg[key_name] = "type=file;file_path=alt_key.pem" if as_provider else "alt_key.pem"
+        args += ["-s", key_path]
+        for pth in chain_paths:
+            args += ["-S", pth]
+        for pth in root_paths:
+            args += ["-R", pth]
+    else:
+        with open(os.path.join(wd, "cert_block.yaml"), "w") as f:
+            yaml.safe_dump(cb, f)
+        ycfg["certBlock"] = "cert_block.yaml"
+        ycfg[key_name] = ("type=file;file_path=%s" if as_provider else "%s") % os.path.basename(key_path)
+    # ---- where the outputs go: by option or by configuration key
+    rkth_path = os.path.join(wd, "rkth_cli.bin")
+    if slot % 2:
+        ycfg["RKTHOutputPath"] = rkth_path
+    else:
+        args += ["-h", rkth_path]
+    out = os.path.join(wd, out_name)
+    if case["rkh_slot"] in (1, 2):
+        out = os.path.join(wd, "out_by_option.sb2")
+        args += ["-o", out]
+    cfg_path = os.path.join(wd, "sb21_cli.yaml")
+    with open(cfg_path, "w") as f:
+        yaml.safe_dump(ycfg, f, sort_keys=False)
+    args += ["-c", cfg_path]
+    o.label("cli:certs_as:" + case["certs_as"], "cli:kek_as:" + case["kek_as"])
+    res = cli.run(o, "sb21_export", args, cwd=os.path.join(wd, "cwd"))
+    if res is None:
+        return
+    data = cli.read(o, "sb21_export", out)
+    if data is None:
+        return
+    co = cli.Scoped(o, "sb21_export")
+    model = _judge_cfg(co, fcase, data, kek, exp, root_hashes, slot, rkth_path, "file written by the command")
+    if model is not None:
+        co.check("rkth", ("RKTH: %s" % model["cert_block"].rkth.hex()) in res.output, "printed_value", res.describe())
+        certs = [open(p_, "rb").read() for p_ in chain_paths]
+        co.check("cert_block", [c.der for c in model["cert_block"].certs] == certs, "certificates", "the block does not carry the given certificate chain")
+    _cli_sb21_parse(o, wd, out, kek_path, [s_["commands"] for s_ in fsections], [open(p_, "rb").read() for p_ in chain_paths])
+
+
+def _judge_cfg(o, case, data: bytes, kek: bytes, exp_sections: list, root_hashes: dict, slot: int, rkth_path: str, what: str):
+    """The loader model on one file built from a configuration: accepted with the given KEK, header fields, keys, certificate
+    block and command content as configured.  Returns the model's reading (None: rejected)."""
+    try:
+        model = sb2_rom.load(data, kek)
+    except sb2_rom.Reject as exc:
+        o.fail("rom_accepts", "config_reject", "%s: %s" % (what, exc))
+        return None
+    h = model["header"]
+    want_flags = 0x8008 if case["flags"] is None else int(str(case["flags"]), 0)
+    o.eq("config_header", "flags", h["flags"], want_flags)
+    o.eq("config_header", "product_version", h["product_version"], [int("%d" % n, 16) for n in (case["product"] or [1, 0, 0])])
+    o.eq("config_header", "component_version", h["component_version"], [int("%d" % n, 16) for n in (case["component"] or [1, 0, 0])])
+    want_build = case["build"] if case["build"] is not None else 1
+    if case["certs_as"] == "arguments" or case["build"] is not None:
+        o.eq("config_header", "build_number", h["build_number"], want_build)
+    if case["timestamp"] is not None:
+        o.eq("config_header", "timestamp", h["timestamp"], (case["timestamp"] - 946684800) * 1000000)
+    for k_ in ("dek", "mac"):
+        if case[k_] is not None:
+            o.eq("config_keys", k_, model[k_], bytes(case[k_]))
+    if case["nonce"] is not None:
+        o.eq("config_keys", "nonce", h["nonce"], bytes(case["nonce"]))
+    cbm = model["cert_block"]
+    o.eq("config_cert_block", "rkh_table", {i: r for i, r in enumerate(cbm.rkh) if any(r)}, root_hashes)
+    o.eq("config_cert_block", "used_root", cbm.used_root_index, slot)
+    with o.spsdk("config_cert_block", "rkth_file"):
+        o.eq("config_cert_block", "rkth_file", open(rkth_path, "rb").read(), cbm.rkth)
+    fake = {"sections": [{"commands": [dict(c, zero=case["zero_padding"]) if c["c"] == "load" else c for c in s_["commands"]]} for s_ in case["sections"]]}
+    _compare_sections("config_content", model["sections"], exp_sections, fake, o)
+    return model
+
+
 _WORK: dict = {}
 
 def parts(ctx):
     _WORK["dir"] = ctx.work
+    cli.preload()
     return [HypPart("sb2", _case(), run_case, {"quick": 4000, "thorough": 150000}),
             HypPart("sb21_config", _cfg_case(), run_cfg_case, {"quick": 600, "thorough": 30000})]
